@@ -313,6 +313,17 @@ class Spec:
             if g[1] is not None:
                 g[1]["props"] += kvs
                 g[1].setdefault("own_props", []).extend(kvs)
+        elif op == "lWithPropsAt":
+            # the local span that is the k-th guard from the top (newer scopes may be open): its own properties
+            k = int(a[0])
+            kvs = rprops(a[1].split(":", 1)[1])
+            g = th["guards"][-1 - k]
+            if g[0] != "local" or g[2] == "stale":
+                raise ValueError("lWithPropsAt: guard is not an open local span")
+            self.closure_obs.append((pos, g[1] is not None))
+            if g[1] is not None:
+                g[1]["props"] += kvs
+                g[1].setdefault("own_props", []).extend(kvs)
         elif op == "lAddProps":
             kvs = rprops(a[0].split(":", 1)[1])
             sc = self.top(t)
@@ -713,6 +724,15 @@ class Gen:
 
     def op_cycle(self):
         self.emit(0, self.r.pick(["cycle", "cycle", "cycle", "flush"]))
+        if self.k.get("overload") and self.s.reporter and self.r.chance(1, 3):
+            self.op_fill()
+
+    def op_fill(self):
+        """overload: one live thread's command queue is filled to within a few slots of its capacity (or a little
+        beyond: the surplus finish signals are parked), so that the calls that follow fall on a full queue"""
+        lt = self.live_threads()
+        if lt:
+            self.emit(self.r.pick(lt), "spam %d" % (QUEUE_CAP - 6 + self.r.below(10)))
 
     def op_stats(self):
         self.emit(0, "stats")
@@ -812,6 +832,10 @@ class Gen:
                 self.reserve.append(t)
         if not self.k["no_reporter"] and not self.k["late_reporter"]:
             self.op_set_reporter()
+            if self.k.get("overload"):
+                self.op_fill()
+                if nt > 1 and self.r.chance(1, 3):
+                    self.op_fill()
 
     def step_blocks_roots(self, t):
         return False
